@@ -400,7 +400,9 @@ fn main() {
         "C19" => drive(&props::misc::C19, &a),
         "C20" => drive(&props::misc::C20, &a),
         "C12s" => drive(&props::text::Text(props::text::Which::C12s), &a),
-        "C14b" => drive(&props::text::TextBig, &a),
+        "C14b" => drive(&props::text::TextBig(0), &a),
+        "C04b" => drive(&props::text::TextBig(1), &a),
+        "C17b" => drive(&props::text::TextBig(2), &a),
         "C14a" => drive(&props::misc::IdDistinct, &a),
         other => {
             eprintln!("unknown property {}", other);
